@@ -24,7 +24,8 @@ def run(chk):
                 'state x XDG_DATA_HOME set/unset/empty x HOME set/unset x file location x --trash-dir x both fallback '
                 'switches) with one trash-put per edge; the real run must put the entry into the directory ChosenDir '
                 'prescribes; created directories must be 0700 under umask 022/000/077; the payload must arrive by '
-                'exactly one rename unless both fallback switches are on; non-trivial = trashed or had to fail')
+                'exactly one rename unless both fallback switches are on; stage td-through-link: --trash-dir spelled L/../name through a '
+                'symlink on another volume (only where the entry went is judged there); non-trivial = trashed or had to fail')
     chk.assumptions += common.ASSUME
     common.mc(chk, properties=['PutVolumeOK'])
     opts = lambda g, seed: {'shim': {'trace': True}}
@@ -33,6 +34,14 @@ def run(chk):
                             strat=lambda g: (json_key(g['cfg']), g['lab']['args'][0].get('r'), g['lab']['opts']['td'],
                                              g['lab']['opts']['hf'], g['lab']['opts']['hfenv']),
                             opts_fn=opts, judge=one_rename_judge, seeds_per_group=1)
+    # --trash-dir spelled 'L/../name' with L a symlink kept on ANOTHER volume: the file system designates the real directory;
+    # a lexical reading designates a decoy on the other volume.  The gate must judge the real directory's volume.
+    g2 = [g for g in g1 if g['lab']['opts']['td'] != 'none']
+    stages.transition_tests(chk, 'td-through-link', g2, sample=600 if quick else 6000, per_stratum=1,
+                            strat=lambda g: (json_key(g['cfg']), g['lab']['args'][0].get('r'), g['lab']['opts']['td'],
+                                             g['lab']['opts']['hf'], g['lab']['opts']['hfenv']),
+                            opts_fn=lambda g, seed: {'shim': {'trace': True}, 'td_spelling': 'linkdotdotx', 'gate_only': True},
+                            judge=one_rename_judge, seeds_per_group=1)
     chk.exhaustive = not quick
 
 
